@@ -178,6 +178,10 @@ def core_specs():
     # element-wise power with an ARRAY of exponents (entries with p == q are compiled as abs, the others as power cones)
     for form in ['le', 'obj', 'le_scaled']:
         S.append(dict(name='powerarr-%s' % form, atom='powerarr', form=form))
+    # the ARGUMENT is broadcast against the arrays of exponents (one entry, several exponents; a column against a row)
+    for form in ['le', 'obj', 'le_scaled']:
+        S.append(dict(name='powerbc-%s' % form, atom='powerbc', form=form))
+        S.append(dict(name='powerbc2d-%s' % form, atom='powerbc2d', form=form))
     for ab in [(3, 1), (3, 2), (4, 1), (5, 2)]:
         for form in ['le', 'obj', 'le_scaled', 'obj_scaled']:
             if form == 'obj_scaled' and ab[1] != 1:
@@ -441,6 +445,29 @@ def desc_from_spec(spec):
             else:
                 a.st(a.le(h, u))
                 a.min(a.sum(u) + a.sum(np.array([0.5, -0.5, 0.25]) * x))
+        elif atom in ('powerbc', 'powerbc2d'):
+            if atom == 'powerbc':
+                x = a.dvar(1)
+                u = a.dvar(3)
+                h = a.power(x - 0.5, np.array([2, 3, 1]), np.array([1, 2, 1]))
+                w = np.array([1.0, 2.0, 0.5])
+            else:
+                x = a.dvar((2, 1))
+                u = a.dvar((2, 2))
+                h = a.power(x - np.array([[0.5], [-0.25]]), np.array([2, 3]), np.array([1, 1]))
+                w = np.array([[1.0, 2.0], [0.5, 1.0]])
+            a.st(a.ge(x, -2.0))
+            a.st(a.le(x, 1.0))
+            a.st(a.le(u, 40.0))
+            if form == 'le':
+                a.st(a.le(h, u))
+                a.min(a.sum(w * u) + 0.5 * a.sum(x))
+            elif form == 'le_scaled':
+                a.st(a.le(2.0 * h - 1.0, u))
+                a.min(a.sum(w * u) + 0.5 * a.sum(x))
+            else:
+                a.st(a.le(h, u))
+                a.min(a.sum(w * u) - 0.75 * a.sum(x))
         elif atom == 'pnorm':
             aa, bb = spec['ab']
             x = a.dvar(2)
